@@ -100,8 +100,15 @@ def regex_grammar(rng, pref_sensitive=False):
     ign = rng.choice(sorted(IGNORES) + [None])
     ignore = []
     if ign:
+        if ign == 'CM' and rng.random() < 0.5:
+            # a second, shorter %ignore that matches where the comment starts, declared first
+            terms.append(term('H', ['x', '#', ''], ex=['#']))
+            ignore.append('H')
         terms.append(term(ign, ['x', IGNORES[ign][0], ''], ex=IGNORES[ign][1]))
-        ignore = [ign]
+        ignore.append(ign)
+        if ign == 'WS' and rng.random() < 0.3:
+            terms.append(term('CM', ['x', IGNORES['CM'][0], ''], ex=IGNORES['CM'][1]))
+            ignore.append('CM')
     return {'rules': rules, 'terms': terms, 'ignore': ignore, 'start': ['start'], 'alphabet': list('abcx #')}
 
 
